@@ -39,7 +39,7 @@ class TaskModel:
         if not callee.startswith("self.task."):
             return NotImplemented
         nm = callee[len("self.task."):]
-        args = [it.ev(a) for a in node.args]
+        args = it.call_args(node)
         if nm == "getnumcon":
             return self.rows
         if nm == "appendcons":
@@ -301,6 +301,28 @@ def r_mosek_vars(ctx):
                     raise
     except AnalysisError as e:
         raise AnalysisError("MOSEK main variables not interpretable: %s" % e)
+    if msg is None:
+        # the value `solve` reports is read at a position of the variable vector: on the model (the objective is the last leaf expression, as the
+        # solve root creates it) that position must be the column of the objective leaf, Expression.counter - 1
+        sv = mb.methods.get("solve")
+        pos = None
+        if sv is not None:
+            xx = [s0.targets[0].id for s0 in flow.stmts_of(sv, ast.Assign) if isinstance(s0.value, ast.Call) and call_name(s0.value) == "getxx"
+                  and isinstance(s0.targets[0], ast.Name)]
+            rets = [r0 for r0 in ast.walk(sv) if isinstance(r0, ast.Return) and isinstance(r0.value, ast.Tuple) and r0.value.elts]
+            val = rets[0].value.elts[-1] if len(rets) == 1 else None
+            if isinstance(val, ast.Name):
+                d0 = [s0 for s0 in flow.stmts_of(sv, ast.Assign) if any(isinstance(t0, ast.Name) and t0.id == val.id for t0 in s0.targets)]
+                val = d0[0].value if len(d0) == 1 else None
+            if isinstance(val, ast.Subscript) and isinstance(val.value, ast.Name) and val.value.id in xx:
+                idx = val.slice
+                if isinstance(idx, ast.UnaryOp) and isinstance(idx.op, ast.USub) and isinstance(idx.operand, ast.Constant) and isinstance(idx.operand.value, int):
+                    pos = task.vars - idx.operand.value
+                elif isinstance(idx, ast.Constant) and isinstance(idx.value, int):
+                    pos = idx.value if idx.value >= 0 else task.vars + idx.value
+        if pos is not None and pos != NEX - 1:
+            msg = ("solve reports variable %d of the %d scalar variables as the optimum; the objective leaf (the last leaf expression, %d leaves) sits in column %d"
+                   % (pos, task.vars, NEX, NEX - 1))
     ctx.ob("R-MOSEKROW", "MosekWrapper.set_main_variables / generate_problem (unrolled)", msg is None,
            "Gram matrix = matrix variable 0 (Point.counter rows), one free scalar variable per leaf expression, generate_problem's assertion holds" if msg is None else msg, loc(fn, fn))
     return 1
@@ -357,6 +379,22 @@ def r_mosek_duals(ctx):
             d = [s for s in flow.stmts_of(send, ast.Assign) if isinstance(s.value, ast.Call) and call_name(s.value) == "getnumcon" and dotted(s.targets[0]) == c.args[0].id]
             if d:
                 rows_attr = dotted(c.func.value)
+    if rows_attr is None:
+        # by unrolling: the list attribute of the wrapper that receives the index of the new row when a tracked constraint is sent
+        ps0 = params_of(send)
+        task0 = TaskModel(rows=3)
+        env0 = {ps0[1] + ".equality_or_inequality": "inequality", "self._list_of_constraints_sent_to_solver": [], "np.int8": "int8"}
+        if len(ps0) > 2:
+            env0[ps0[2]] = True
+        it0 = IndexInterp(env0, symbolic={ps0[1]}, on_call=lambda nd, i0, task=task0: _both(nd, i0, task))
+        try:
+            _prime_self_state(it0, mb)
+            it0.run(send.body)
+            hits = [k0 for k0, v0 in it0.env.items() if k0.startswith("self.") and isinstance(v0, list) and v0 == [3]]
+            if len(hits) == 1:
+                rows_attr = hits[0]
+        except AnalysisError:
+            pass
     if rows_attr is None:
         raise AnalysisError("MosekWrapper: attribute recording the rows of tracked constraints not found")
     n = 0
@@ -563,3 +601,61 @@ def r_heur_objective(ctx):
         ctx.ob("R-HEUROBJ", "%s.generate_problem::keeps the objective for the heuristic constraint" % be.name, ok,
                "the objective the heuristic constraint bounds is the one the problem was generated with" if ok else
                "prepare_heuristic bounds `self.objective`, but generate_problem does not store its objective argument there on every path", loc(gp, gp))
+
+
+def r_solver_choice(ctx):
+    """CvxpyWrapper.solve unrolled with a solver named by the user that is not MOSEK (an installed one, and a name no solver has), MOSEK being
+    absent: the name reaches `prob.solve` unchanged -- cvxpy is the one that rejects an unknown solver; replacing it silently by a default turns
+    the failure into a result.  Without a solver, and with solver='MOSEK' / None, the documented fall-back to SCS applies."""
+    repo = ctx.repo
+    be = _be(repo, "cvxpy")
+    fn = be.methods.get("solve")
+    if fn is None or fn.args.kwarg is None:
+        return 0
+    kwname = fn.args.kwarg.arg
+    n = 0
+    for given, want in (("NOT_A_SOLVER", "NOT_A_SOLVER"), ("CLARABEL", "CLARABEL"), ("MOSEK", "SCS"), (None, "SCS"), ("<absent>", "SCS")):
+        kwargs = {} if given == "<absent>" else {"solver": given}
+        passed = []
+
+        def on_call(node, it):
+            nm = call_name(node)
+            ct = it.callee_text(node.func)
+            if nm == "find_spec":
+                return None                      # mosek is not installed
+            if nm == "installed_solvers":
+                return ["CLARABEL", "SCS"]
+            if ct.endswith("prob.solve"):
+                kw = {}
+                for k in node.keywords:
+                    v = it.ev(k.value)
+                    if k.arg is None:
+                        if not isinstance(v, dict):
+                            raise AnalysisError("**%r in the call of the solver" % (v,))
+                        kw.update(v)
+                    else:
+                        kw[k.arg] = v
+                passed.append(kw)
+                return None
+            return NotImplemented
+        env = {kwname: kwargs, "self.verbose": 0}
+        it = IndexInterp(env, on_call=on_call)
+        try:
+            it.run(fn.body)
+        except AnalysisError as ex:
+            if "the index program raises" in str(ex):
+                if want == given and given == "NOT_A_SOLVER":
+                    n += 1
+                    ctx.ob("R-SOLVECALL", "CvxpyWrapper.solve::solver=%r (unrolled)" % (given,), True, "an unknown solver is rejected", loc(fn, fn))
+                    continue
+            ctx.notes.append("R-SOLVECALL solver-choice program skipped (solver=%r): %s" % (given, ex))
+            continue
+        n += 1
+        got = passed[0].get("solver", "<absent>") if len(passed) == 1 else "<%d calls of prob.solve>" % len(passed)
+        ok = len(passed) == 1 and got == want
+        ctx.ob("R-SOLVECALL", "CvxpyWrapper.solve::solver=%r (unrolled)" % (given,), ok,
+               "cvxpy is asked for %r" % (want,) if ok else
+               "with solver=%r (MOSEK not installed) cvxpy is asked for %r, expected %r%s" % (
+                   given, got, want, ": a solver the user named is replaced silently -- an invalid name is no longer reported" if given in ("NOT_A_SOLVER", "CLARABEL") else ""),
+               loc(fn, fn))
+    return n
